@@ -398,7 +398,22 @@ def _ls_env(E, st):
     E.stubs[id(lt)] = lambda it, name, a, k, pc: entry
     Ro.fields["location_table"] = lt
     E.stubs[Router._send_ls_request_packet] = lambda it, a, k, pc: (it.events.append((pc, "ls_request_sent", None)), st["sent"].append((pc, len(it.events) - 1)))[0]
-    E.stubs[Router.gn_data_request_guc] = lambda it, a, k, pc: (it.events.append((pc, "guc", a[1])), st["guc"].append((pc, len(it.events) - 1, it.tok(a[1]))))[0]
+    # gn_data_request_guc either puts the packet on the air or - when the destination is (again) unresolved, e.g. its LocTE expired in the
+    # meantime - falls back to gn_ls_request for the same request (router.py, step 2 of the GUC source operation): one free Boolean per request
+    st["fallback"] = {500: z3.Bool("flushed_request_500_unresolved_again"), 501: z3.Bool("flushed_request_501_unresolved_again"),
+                      502: z3.Bool("flushed_request_502_unresolved_again")}
+
+    def guc(it, a, k, pc):
+        tok = it.tok(a[1])
+        fb = z3.Or(*[z3.And(tok == t, b) for t, b in st["fallback"].items()])
+        sent = z3.simplify(z3.And(pc, z3.Not(fb)))
+        it.events.append((sent, "guc", a[1]))
+        st["guc"].append((sent, len(it.events) - 1, tok))
+        back = z3.simplify(z3.And(pc, fb))
+        if not z3.is_false(back):
+            it.call_function(Router.gn_ls_request, [a[0], DEST, a[1]], {}, back)
+        return None
+    E.stubs[Router.gn_data_request_guc] = guc
 
     def timer_method(it, o, name, a, k, pc):
         it.events.append((pc, "timer." + name, o.term))
@@ -551,9 +566,28 @@ def _ls_real(vals, il, names):
         R._ls_timers[DEST] = old_timer
     sent, guc = [], []
     R._send_ls_request_packet = lambda a: sent.append(a)
-    R.gn_data_request_guc = lambda req: guc.append(req)
+    names_of = {"old": 500, "req-new": 501, "req-a": 501, "req-b": 502}
+
+    def real_guc(req):
+        if vals.get(f"flushed_request_{names_of.get(req, 0)}_unresolved_again"):
+            return R.gn_ls_request(DEST, req)          # the fall-back of the real source operation for an unresolved destination
+        guc.append(req)
+    R.gn_data_request_guc = real_guc
     gate_object(R, {"_ls_packet_buffers": "_ls_lock", "_ls_retransmit_counters": "_ls_lock", "_ls_timers": "_ls_lock"}, sched, il.und_names)
     return R, sched, flag, sent, guc, old_timer
+
+
+def _ls_reply_hangs(il, st):
+    """real confirmation of a self-deadlock on the reply path: one waiting request whose destination is unresolved again when it is flushed"""
+    def run():
+        vals = {"lookup_pending": True, "one_request_already_buffered": True, "retransmit_count": 0, "flushed_request_500_unresolved_again": True, "schedule": []}
+        R, sched, flag, sent, guc, old_timer = _ls_real(vals, il, ())
+        R.duplicate_address_detection = lambda a: None
+        from unittest import mock
+        import flexstack.geonet.router as RM
+        with mock.patch.object(RM, "Timer", lambda *a, **k: mock.Mock()):
+            R.gn_data_indicate_ls_reply(st["reply_hdr"].encode(), CommonHeader(), BasicHeader())
+    return lambda: hangs(run)
 
 
 def _ls_common(il, st, names):
@@ -564,6 +598,7 @@ def _ls_common(il, st, names):
     nsent = sum([z3.If(c, 1, 0) for c, i in st["sent"]]) if st["sent"] else z3.IntVal(0)
     exc = z3.Or(*[c for nm in names for c, k in il.rets[nm][1]]) if any(il.rets[nm][1] for nm in names) else FALSE
     vars_ = {"lookup_pending": st["pending0"], "one_request_already_buffered": st["has_old"], "retransmit_count": z3.Int("retransmit_count")}
+    vars_.update({b.decl().name(): b for b in st["fallback"].values()})
     return fin, pend, has, nguc, nsent, exc, vars_
 
 
@@ -616,7 +651,7 @@ def ls_request_reply(ctx):
           vars=vars_, replay=replay, desc="the request handed to gn_ls_request is sent exactly once by the reply handler or is still buffered under a pending lookup - never lost, never both")
     solve(ctx, il, "X3b-earlier-request-sent-once-or-still-waiting",
           z3.And(st["has_old"], z3.Not(z3.Or(z3.And(nguc(500) == 1, z3.Not(has(500))), z3.And(nguc(500) == 0, has(500), pend)))), vars=vars_, replay=replay)
-    no_deadlock(ctx, il, "X3b")
+    no_deadlock(ctx, il, "X3b", hang=_ls_reply_hangs(il, st))
     bounds_ok(ctx, il, "X3b")
     note_blocks(ctx, il, "gn_ls_request || gn_data_indicate_ls_reply (same destination)")
     ctx.stub("LS reply decoder returns a reply from the sought address to the local address; DAD passes; gn_data_request_guc recorded; "
@@ -658,21 +693,26 @@ def ls_retransmit_reply(ctx):
             n = guc.count("old")
             if n > 1:
                 bad.append(f"buffered request sent {n} times")
-            if n == 0 and vals["retransmit_count"] < MAXR:
+            again = vals.get("flushed_request_500_unresolved_again")
+            if n == 0 and vals["retransmit_count"] < MAXR and not ("old" in buf and flag["v"]):
                 bad.append("buffered request dropped although the retry limit had not been reached and the reply arrived")
-            if "old" in buf:
+            if "old" in buf and not again:
                 bad.append("buffered request still buffered after the reply")
-        if flag["v"]:
+            if n == 1 and "old" in buf:
+                bad.append("buffered request sent and still buffered")
+        if flag["v"] and not vals.get("flushed_request_500_unresolved_again"):
             bad.append("lookup still marked pending after the reply")
         return bool(bad), "retransmission || reply: " + ("; ".join(bad) or "ok") + f" (sent {guc}, LS requests {len(sent)}, buffer {buf}, switch points {sched.trace})"
     feasible(ctx, il, "X3c-some-schedule")
     feasible(ctx, il, "X3c-final-retry-can-drop", z3.And(st["has_old"], nguc(500) == 0))
     solve(ctx, il, "X3c-no-exception", exc, vars=vars_, replay=replay)
     solve(ctx, il, "X3c-sent-at-most-once", nguc(500) > 1, vars=vars_, replay=replay)
-    solve(ctx, il, "X3c-dropped-only-by-the-final-retry", z3.And(st["has_old"], nguc(500) == 0, cnt < MAXR), vars=vars_, replay=replay,
+    fb500 = st["fallback"][500]
+    solve(ctx, il, "X3c-dropped-only-by-the-final-retry", z3.And(st["has_old"], nguc(500) == 0, cnt < MAXR, z3.Not(z3.And(has(500), pend))), vars=vars_, replay=replay,
           desc="a buffered request is sent after the reply unless the retransmission that gave up (count >= itsGnLocationServiceMaxRetrans) ran first")
-    solve(ctx, il, "X3c-nothing-buffered-or-pending-afterwards", z3.Or(has(500), pend), vars=vars_, replay=replay)
-    no_deadlock(ctx, il, "X3c")
+    solve(ctx, il, "X3c-nothing-buffered-or-pending-afterwards", z3.And(z3.Not(fb500), z3.Or(has(500), pend)), vars=vars_, replay=replay,
+          desc="unless the flushed request found its destination unresolved again (then it waits under a new lookup)")
+    no_deadlock(ctx, il, "X3c", hang=_ls_reply_hangs(il, st))
     bounds_ok(ctx, il, "X3c")
     note_blocks(ctx, il, "_ls_retransmit || gn_data_indicate_ls_reply (same destination)")
 
@@ -930,6 +970,170 @@ def ls_three_actors(ctx):
     solve(ctx, il, "X3e-new-request-sent-once-waiting-or-dropped-at-the-limit", z3.Not(ok(501)), vars=vars_, replay=replay,
           desc="sent exactly once after the reply, or still buffered under a pending lookup, or dropped by the give-up at the retry limit - never lost otherwise, never twice")
     solve(ctx, il, "X3e-earlier-request-sent-once-waiting-or-dropped-at-the-limit", z3.And(st["has_old"], z3.Not(ok(500))), vars=vars_, replay=replay)
-    no_deadlock(ctx, il, "X3e")
+    no_deadlock(ctx, il, "X3e", hang=_ls_reply_hangs(il, st))
     bounds_ok(ctx, il, "X3e")
     note_blocks(ctx, il, "gn_ls_request || _ls_retransmit || gn_data_indicate_ls_reply (same destination)")
+
+
+# ---------------------------------------------------------------------------------------------- X5 concurrent origination
+from flexstack.geonet.router import GNForwardingAlgorithmResponse
+from flexstack.geonet.service_access_point import GNDataRequest, PacketTransportType, Area, TrafficClass, CommonNH, CommunicationProfile
+
+
+def _gbc_request(tag):
+    return GNDataRequest(upper_protocol_entity=CommonNH.BTP_B,
+                         packet_transport_type=PacketTransportType(header_type=HeaderType.GEOBROADCAST, header_subtype=GeoBroadcastHST.GEOBROADCAST_CIRCLE),
+                         communication_profile=CommunicationProfile.UNSPECIFIED, traffic_class=TrafficClass(), length=4, data=tag,
+                         area=Area(latitude=415520000, longitude=21340000, a=500, b=500, angle=0), max_hop_limit=3)
+
+
+@vc("C15", "X5-concurrent-origination-sequence-numbers-and-position")
+def origination(ctx):
+    """two geo-broadcast requests originated concurrently while the position is refreshed: the packets carry distinct sequence numbers
+    (from every counter value) and each a position vector that was the ego position at some instant"""
+    st = {}
+    n = 3 if ctx.tier == "thorough" else 2
+    names = [f"app{i}" for i in range(n)]
+
+    def build(E):
+        R, ll, got = real_router()
+        Ro = E.lift(R)
+        shape = RecS(LongPositionVector, PV_FIELDS, const=dict(gn_addr=R.mib.itsGnLocalGnAddr, pai=True))
+        pv0 = shape.fresh(E, "pv0")
+        Ro.fields["ego_position_vector"] = pv0
+        sn0 = z3.Int("sn0")
+        E.assumptions.append(z3.And(sn0 >= 0, sn0 <= 65534))
+        Ro.fields["sequence_number"] = sn0
+        E.share(Ro, "sequence_number", IntS(0, 65535), "sequence_number_lock")
+        E.share(Ro, "ego_position_vector", shape, "ego_position_vector_lock")
+        news, made = [], []
+
+        def refresh(it, a, k, pc):
+            v = shape.fresh(it, f"pv_new{len(news)}")
+            news.append((pc, v))
+            return v
+        E.stubs[LongPositionVector.refresh_with_tpv_data] = refresh
+
+        def mk_header(it, a, k, pc):
+            sn, pv = a[-2], a[-1]          # (cls,) request, sequence number, ego position vector
+            made.append((pc, it.cur_thread, it.tok(sn), shape.flat(it, pv)))
+            return Obj(GBCExtendedHeader, dict(sn=sn, so_pv=pv))
+        E.stubs[GBCExtendedHeader.initialize_with_request_sequence_number_ego_pv] = mk_header
+        E.stubs[GBCExtendedHeader.encode] = lambda it, a, k, pc: bytes(44)
+        E.stubs[BasicHeader.encode_to_bytes] = lambda it, a, k, pc: bytes(4)
+        E.stubs[CommonHeader.encode_to_bytes] = lambda it, a, k, pc: bytes(8)
+        E.stubs[Router._compute_area_size_m2] = lambda it, a, k, pc: 0
+        E.stubs[Router.gn_forwarding_algorithm_selection] = lambda it, a, k, pc: GNForwardingAlgorithmResponse.AREA_FORWARDING
+        lt = Opaque("location_table")
+        E.stubs[id(lt)] = lambda it, name, a, k, pc: SList([(TRUE, Opaque("neighbour"))]) if name == "get_neighbours" else None
+        Ro.fields["location_table"] = lt
+        sends = []
+        lls = Opaque("link_layer")
+        E.stubs[id(lls)] = lambda it, name, a, k, pc: sends.append((pc, it.cur_thread))
+        Ro.fields["link_layer"] = lls
+        st.update(R=R, Ro=Ro, pv0=pv0, news=news, made=made, sends=sends, shape=shape, sn0=sn0)
+        ths = [(nm, Router.gn_data_request_gbc, [Ro, _gbc_request(nm.encode())]) for nm in names]
+        ths.append(("gps", Router.refresh_ego_position_vector, [Ro, {"lat": 1.0}]))
+        return dict(threads=ths, locks=[R.sequence_number_lock, R.ego_position_vector_lock], lock_names=["sequence_number_lock", "ego_position_vector_lock"])
+    il = Ilv(build).run()
+    il.cons = il.encode()
+    E = il.E
+    shape = st["shape"]
+    made = st["made"]
+    cands = [shape.flat(E, st["pv0"])] + [shape.flat(E, v) for _, v in st["news"]]
+    allnames = names + ["gps"]
+    exc = z3.Or(*[c for nm in allnames for c, k in il.rets[nm][1]]) if any(il.rets[nm][1] for nm in allnames) else FALSE
+    vars_ = {"sn0": st["sn0"]}
+
+    def replay(vals):
+        import flexstack.geonet.position_vector as PVM
+        from unittest import mock
+        R, ll, got = real_router()
+        R.sequence_number = vals["sn0"]
+        pvs = [dataclasses.replace(LongPositionVector(), gn_addr=R.mib.itsGnLocalGnAddr, latitude=10 * (i + 1), longitude=100 * (i + 1), s=i + 1) for i in range(2)]
+        R.ego_position_vector = pvs[0]
+        R.location_table = mock.Mock()
+        R.location_table.get_neighbours.return_value = [object()]
+        R.gn_forwarding_algorithm_selection = lambda req, sender=None: GNForwardingAlgorithmResponse.AREA_FORWARDING
+        sched = Scheduler(vals["schedule"])
+        gate_object(R, {"sequence_number": "sequence_number_lock", "ego_position_vector": "ego_position_vector_lock"}, sched, il.und_names)
+        fns = {nm: (lambda nm=nm: R.gn_data_request_gbc(_gbc_request(nm.encode()))) for nm in names}
+        fns["gps"] = lambda: R.refresh_ego_position_vector({})
+        with mock.patch.object(PVM.LongPositionVector, "refresh_with_tpv_data", lambda self, tpv: pvs[1]):
+            res, sched = run_schedule(vals["schedule"], fns, sched)
+        if sched.failed:
+            return False, "replay scheduler: " + sched.failed
+        bad = [f"{k} raised {r[1]!r}" for k, r in res.items() if r[0] == "raised"]
+        sns, seen = [], []
+        for p in ll.sent:
+            hdr = GBCExtendedHeader.decode(p[12:56])
+            sns.append(hdr.sn)
+            if not any((hdr.so_pv.latitude, hdr.so_pv.longitude, hdr.so_pv.s) == (q.latitude, q.longitude, q.s) for q in pvs):
+                bad.append(f"packet with SN {hdr.sn} carries a position vector (lat {hdr.so_pv.latitude}, lon {hdr.so_pv.longitude}, speed {hdr.so_pv.s}) the station never had")
+        if len(ll.sent) != len(names):
+            bad.append(f"{len(ll.sent)} packets for {len(names)} requests")
+        if len(set(sns)) != len(sns):
+            bad.append(f"sequence numbers not distinct: {sns}")
+        return bool(bad), f"{len(names)} concurrent geo-broadcast originations from counter {vals['sn0']} + position refresh: " + ("; ".join(bad) or "ok") + f" (SNs {sns}, switch points {sched.trace})"
+    feasible(ctx, il, "X5-some-schedule")
+    feasible(ctx, il, "X5-every-request-is-sent", z3.And(*[z3.Or(*[c for c, t in st["sends"] if t == nm]) if any(t == nm for c, t in st["sends"]) else FALSE for nm in names]))
+    solve(ctx, il, "X5-no-exception", exc, vars=vars_, replay=replay)
+    per = {nm: [(c, sn, pv) for c, t, sn, pv in made if t == nm] for nm in names}
+    pairs = [(a, b) for i, a in enumerate(names) for b in names[:i]]
+    solve(ctx, il, "X5-sequence-numbers-of-originated-packets-distinct",
+          z3.Or(*[z3.And(ca, cb, sa == sb) for a, b in pairs for ca, sa, _ in per[a] for cb, sb, _ in per[b]]) if pairs else FALSE, vars=vars_, replay=replay,
+          desc="the sequence numbers handed to the GBC headers of concurrently originated packets are pairwise distinct, from every counter value")
+    solve(ctx, il, "X5-one-header-per-request", z3.Or(*[sum([z3.If(c, 1, 0) for c, _, _ in per[nm]]) != 1 for nm in names]), vars=vars_, replay=replay)
+    solve(ctx, il, "X5-position-vector-of-every-packet-is-an-ego-position",
+          z3.Or(*[z3.And(c, z3.Not(z3.Or(*[z3.And(*[e == x for e, x in zip(pv, cand)]) for cand in cands]))) for nm in names for c, _, pv in per[nm]]), vars=vars_, replay=replay,
+          desc="every field of the source position vector of an originated packet comes from one and the same value the ego position held (no torn vector)")
+    no_deadlock(ctx, il, "X5")
+    note_blocks(ctx, il, f"{len(names)} x gn_data_request_gbc || refresh_ego_position_vector")
+    ctx.stub("area size 0, forwarding selection = area forwarding, one neighbour, header encoders return placeholders; the GBC header initialiser records the sequence "
+             "number and position vector it is given; refresh_with_tpv_data returns a fresh arbitrary vector")
+
+
+@vc("C15", "X3-location-service-duplicate-replies")
+def ls_two_replies(ctx):
+    """the LS reply received twice concurrently (two paths): every waiting request is sent exactly once"""
+    st = {}
+
+    def build(E):
+        R, Ro, entry = _ls_env(E, st)
+        E.assumptions.append(st["pending0"])
+        _ls_reply_env(E, st)
+        args = [Ro, bytes(60), CommonHeader(), BasicHeader()]
+        return dict(threads=[("reply1", Router.gn_data_indicate_ls_reply, list(args)), ("reply2", Router.gn_data_indicate_ls_reply, list(args))],
+                    locks=[R._ls_lock], lock_names=["_ls_lock"])
+    il = Ilv(build, unroll=4).run()
+    il.cons = il.encode()
+    names = ("reply1", "reply2")
+    fin, pend, has, nguc, nsent, exc, vars_ = _ls_common(il, st, names)
+
+    def replay(vals):
+        from unittest import mock
+        R, sched, flag, sent, guc, old_timer = _ls_real(vals, il, names)
+        R.duplicate_address_detection = lambda a: None
+        packet = st["reply_hdr"].encode()
+        fn = lambda: R.gn_data_indicate_ls_reply(packet, CommonHeader(), BasicHeader())
+        res, sched = run_schedule(vals["schedule"], {"reply1": fn, "reply2": fn}, sched)
+        if sched.failed:
+            return False, "replay scheduler: " + sched.failed
+        bad = [f"{n} raised {r[1]!r}" for n, r in res.items() if r[0] == "raised"]
+        again = vals.get("flushed_request_500_unresolved_again")
+        buf = R._ls_packet_buffers.get(DEST, [])
+        if vals["one_request_already_buffered"] and not ((guc.count("old") == 1 and "old" not in buf) or (guc.count("old") == 0 and "old" in buf and flag["v"])):
+            bad.append(f"waiting request sent {guc.count('old')} times, buffered {buf.count('old')} times")
+        if not again and (DEST in R._ls_packet_buffers or flag["v"]):
+            bad.append("buffer or pending flag left behind")
+        return bool(bad), "reply || reply: " + ("; ".join(bad) or "ok") + f" (sent {guc}, switch points {sched.trace})"
+    feasible(ctx, il, "X3f-some-schedule")
+    feasible(ctx, il, "X3f-waiting-request-can-be-sent", z3.And(st["has_old"], nguc(500) == 1))
+    solve(ctx, il, "X3f-no-exception", exc, vars=vars_, replay=replay)
+    fb500 = st["fallback"][500]
+    solve(ctx, il, "X3f-waiting-request-sent-exactly-once-or-waiting-again", z3.And(st["has_old"], z3.Not(z3.Or(z3.And(nguc(500) == 1, z3.Not(has(500))),
+                                                                                                     z3.And(nguc(500) == 0, has(500), pend)))), vars=vars_, replay=replay)
+    solve(ctx, il, "X3f-nothing-buffered-or-pending-afterwards", z3.And(z3.Not(fb500), z3.Or(fin[0], pend)), vars=vars_, replay=replay)
+    no_deadlock(ctx, il, "X3f", hang=_ls_reply_hangs(il, st))
+    bounds_ok(ctx, il, "X3f")
+    note_blocks(ctx, il, "gn_data_indicate_ls_reply || gn_data_indicate_ls_reply (same sought station)")
